@@ -864,6 +864,40 @@ def range_next(M, st, fr, t, args, site):
     return ('fork', out)
 
 
+# ------------------------------------------------------------------------------------------------ ranges used as predicates
+@summary("std::ops::RangeInclusive::<Idx>::new")
+def range_incl_new(M, st, fr, t, args, site):
+    """`lo..=hi`: (start, end, exhausted=false), the field order of the std struct"""
+    rty = M.ret_ty(fr, t)
+    if rty is None:
+        return NotImplemented
+    return ('agg', rty, 0, (args[0], args[1], ('int', C(0, 1, False))), fr.crate.name)
+
+
+@summary("std::ops::RangeInclusive::<Idx>::contains", "std::ops::Range::<Idx>::contains")
+def range_contains(M, st, fr, t, args, site):
+    """`(lo..=hi).contains(&v)` is `lo <= v && v <= hi` (`lo..hi`: `v < hi`): the same three ways through as the written-out comparison"""
+    r = deref_arg(M, st, args[0])
+    v = M.as_int(st, deref_arg(M, st, args[1]))
+    if r[0] != 'agg' or len(r[3]) < 2 or v is None:
+        return NotImplemented
+    lo = M.as_int(st, r[3][0])
+    hi = M.as_int(st, r[3][1])
+    if lo is None or hi is None:
+        return NotImplemented
+    incl = "RangeInclusive" in t["callee"]["rpath"]
+    if incl:
+        ex = M.as_int(st, r[3][2]) if len(r[3]) > 2 else None
+        if ex is None or not sx.is_const(ex) or sx.cval(ex) != 0:
+            return NotImplemented
+    below = sx.Cmp('Lt', v, lo)
+    above = sx.Cmp('Gt' if incl else 'Ge', v, hi)
+    T_, F_ = ('int', C(1, 1, False)), ('int', C(0, 1, False))
+    return ('fork', [([(below, True)], F_, []),
+                     ([(below, False), (above, True)], F_, []),
+                     ([(below, False), (above, False)], T_, [])])
+
+
 # ------------------------------------------------------------------------------------------------ vec![a, b, ..] lowering
 def _find_arr(v, depth=0):
     if v is None or depth > 6:
